@@ -104,8 +104,8 @@ theorem compile_fix (r : RuleSpec) (hr : ruleWF r = true) : (compile r).mapId fi
   simp only at hs ho
   cases anything
   · simp only [compile, RuleState.mapId, RuleConfig.mapId, Option.map_some, hf _ hs, Bool.false_eq_true, if_false,
-      hf _ (ho rfl)]
-  · simp only [compile, RuleState.mapId, RuleConfig.mapId, Option.map_some, hf _ hs, if_true, Option.map_none]
+      hf _ (ho rfl), List.map_nil]
+  · simp only [compile, RuleState.mapId, RuleConfig.mapId, Option.map_some, hf _ hs, if_true, Option.map_none, List.map_nil]
 
 theorem compile_subOK_fix (r : RuleSpec) (hr : ruleWF r = true) : cfgSubOK fixW (compile r).cfg := by
   obtain ⟨hs, _⟩ := (ruleWF_iff r).1 hr
